@@ -172,13 +172,44 @@ def window_params(mod: ast.Module) -> dict:
             raise Unsupported(f"{textual}; and not translated either: {exc}") from exc
 
 
+def mask_params(mod: ast.Module) -> dict:
+    """the comparison applied to the input mask: read off the pinned text; when the text of add_mask is not the pinned one any
+    more but translator/gen_kernels_dataset.py still translates it, read off the translated tree (the one comparison of the RAW
+    mask raster with 0) — `C16KernelsDataset.addMask_generated` then proves, for all inputs, that the function is the model's"""
+    try:
+        return extract_mask(mod)
+    except Unsupported as textual:
+        from . import gen_kernels_dataset
+
+        try:
+            return gen_kernels_dataset.mask_cmp()
+        except Unsupported as exc:
+            raise Unsupported(f"{textual}; and not translated either: {exc}") from exc
+
+
+def nodata_params(mod: ast.Module) -> dict:
+    """the replacement value of add_no_data: the pinned text, else the translated function (`addNoData_generated`)"""
+    try:
+        return extract_nodata(mod)
+    except Unsupported as textual:
+        from . import gen_kernels_dataset
+
+        try:
+            t = gen_kernels_dataset.read_add_no_data()
+        except Unsupported as exc:
+            raise Unsupported(f"{textual}; and not translated either: {exc}") from exc
+        if t["store"] != t["attr"]:
+            raise Unsupported(f"{textual}; translated, but the sample value {t['store']} and the attribute {t['attr']} differ") from textual
+        return {"replacement": t["store"]}
+
+
 def extract() -> dict:
     mod = parse(SRC)
     out = {}
     out.update(window_params(mod))
-    out.update(extract_mask(mod))
+    out.update(mask_params(mod))
     out.update(extract_attrs(mod))
-    out.update(extract_nodata(mod))
+    out.update(nodata_params(mod))
     return out
 
 
